@@ -87,19 +87,25 @@ class DCD:
         self.closed = True
 
 
-def write_gsd(path, frames):
-    """Stub HOOMD process: frames -> stub .gsd (an .npz archive), outside the simulated disk."""
-    arrs = {"T": np.array(len(frames))}
-    for t, fr in enumerate(frames):
-        arrs[f"step{t}"] = np.array(fr.configuration.step)
-        arrs[f"dims{t}"] = np.array(fr.configuration.dimensions)
-        arrs[f"box{t}"] = np.asarray(fr.configuration.box)
-        arrs[f"typeid{t}"] = np.asarray(fr.particles.typeid)
-        arrs[f"pos{t}"] = np.asarray(fr.particles.position)
+MAGIC = b"STUBGSD1"
+
+
+def _frame_blob(fr):
     buf = io.BytesIO()
-    np.savez(buf, **arrs)
+    np.savez(buf, step=np.array(fr.configuration.step), dims=np.array(fr.configuration.dimensions),
+             box=np.asarray(fr.configuration.box), typeid=np.asarray(fr.particles.typeid), pos=np.asarray(fr.particles.position))
+    return buf.getvalue()
+
+
+def write_gsd(path, frames):
+    """Stub HOOMD process: frames -> stub .gsd (magic, then per frame an 8-byte length and an
+    .npz blob), written outside the simulated disk."""
     with simio.real_open(path, "wb") as f:
-        f.write(buf.getvalue())
+        f.write(MAGIC)
+        for fr in frames:
+            blob = _frame_blob(fr)
+            f.write(len(blob).to_bytes(8, "little"))
+            f.write(blob)
 
 
 def write_dcd(path, xyz, lengths):
@@ -107,6 +113,66 @@ def write_dcd(path, xyz, lengths):
     np.savez(buf, xyz=np.asarray(xyz), lengths=np.asarray(lengths))
     with simio.real_open(path, "wb") as f:
         f.write(buf.getvalue())
+
+
+class FileTrajectory:
+    """Stand-in for gsd.hoomd.HOOMDTrajectory on a stub file: the file stays open, the frame
+    index is read at open, every frame is fetched from the (simulated) disk when it is asked
+    for and handed out as new arrays - as the real reader does."""
+
+    def __init__(self, name):
+        self.name = name
+        self._f = open(name, "rb")            # builtins.open: the simulated disk
+        if self._f.read(8) != MAGIC:
+            self._f.close()
+            raise RuntimeError(f"{name}: not a (stub) GSD file")
+        self._index = []
+        pos = 8
+        while True:
+            head = self._f.read(8)
+            if len(head) < 8:
+                break
+            n = int.from_bytes(head, "little")
+            self._index.append((pos + 8, n))
+            pos += 8 + n
+            self._f.seek(pos)
+        self.closed = False
+
+    def __len__(self):
+        return len(self._index)
+
+    def _fetch(self, i):
+        off, n = self._index[i]
+        self._f.seek(off)
+        data = self._f.read(n)
+        if len(data) != n:
+            raise OSError(5, f"{self.name}: frame {i} is truncated")
+        z = np.load(io.BytesIO(data), allow_pickle=False)
+        return Frame(int(z["step"]), int(z["dims"]), z["box"], z["typeid"], z["pos"])
+
+    def __getitem__(self, i):
+        if isinstance(i, slice):
+            return [self._fetch(k) for k in range(*i.indices(len(self)))]
+        if i < 0:
+            i += len(self)
+        if not 0 <= i < len(self):
+            raise IndexError(i)
+        return self._fetch(i)
+
+    def __iter__(self):
+        for i in range(len(self)):
+            yield self._fetch(i)
+
+    def close(self):
+        if not self.closed:
+            self.closed = True
+            self._f.close()
+
+    def __enter__(self):
+        return self
+
+    def __exit__(self, *a):
+        self.close()
 
 
 def _load_npz(name):
@@ -119,11 +185,7 @@ def _load_npz(name):
 def gsd_open(name, mode="r"):
     if mode not in ("r", "rb"):
         raise ValueError(f"stub gsd.hoomd.open: unsupported mode {mode!r}")
-    z = _load_npz(name)
-    frames = []
-    for t in range(int(z["T"])):
-        frames.append(Frame(int(z[f"step{t}"]), int(z[f"dims{t}"]), z[f"box{t}"], z[f"typeid{t}"], z[f"pos{t}"]))
-    return Trajectory(frames, name)
+    return FileTrajectory(name)
 
 
 def dcd_open(name, mode="r", force_overwrite=True):
@@ -141,7 +203,7 @@ def install_hoomd():
     gsd.__verif_stub__ = True
     hoomd = types.ModuleType("gsd.hoomd")
     hoomd.open = gsd_open
-    hoomd.HOOMDTrajectory = Trajectory
+    hoomd.HOOMDTrajectory = FileTrajectory
     gsd.hoomd = hoomd
     sys.modules["gsd"] = gsd
     sys.modules["gsd.hoomd"] = hoomd
